@@ -49,7 +49,10 @@ Inductive pev :=
 | EUse (slot : nat)          (* a statement reads or writes the object bound to the slot (Reset, Write, Bytes, copy out) *)
 | EUse2 (a b : nat)          (* the object in slot a works on the object in slot b (zw.Reset(buff); zw.Write; zw.Close) *)
 | EPut (slot : nat)          (* pool.Put(x), also when deferred                                    *)
-| EReturnAlias (slot : nat). (* the function result / something reachable by the caller aliases the object's memory *)
+| EReturnAlias (slot : nat)  (* the function result / something reachable by the caller aliases the object's memory *)
+| ESend (slot : nat)         (* the object is handed to another goroutine through a queue (recv.Push(p)): the sender keeps no reference *)
+| ERecv (slot : nat)         (* an object is taken out of the queue (ReadPacket(&p)): bind a local slot; waits while the queue is empty *)
+| EDrop (slot : nat).        (* the last reference is dropped WITHOUT Put (the buffer is left to the garbage collector) *)
 
 (* nbt/typeinfo.go: the three program points of cachedTypeFields (shape checked by tools/gotrans/pool.go) *)
 Inductive cstmt :=
